@@ -187,7 +187,23 @@ def run_case(case, sb):
                     else:
                         expf.append(f"{w}={v}")
                 got = fields[: len(expf)]
-                bad = len(got) != len(expf) or any(e is not None and e != g for e, g in zip(expf, got))
+
+                def same(e, g, w=None):
+                    if e is None or e == g:
+                        return True
+                    # a tracking variable prints as a dict: entries whose value is None (left by a read of a key
+                    # that was never written) are not fixed by the docs and are ignored on both sides
+                    try:
+                        import ast
+                        k, _, ev = e.partition("=")
+                        k2, _, gv = g.partition("=")
+                        de, dg = ast.literal_eval(ev), ast.literal_eval(gv)
+                        if k == k2 and isinstance(de, dict) and isinstance(dg, dict):
+                            return {a: b for a, b in de.items() if b is not None} == {a: b for a, b in dg.items() if b is not None}
+                    except (ValueError, SyntaxError):
+                        pass
+                    return False
+                bad = len(got) != len(expf) or any(not same(e, g) for e, g in zip(expf, got))
                 if bad:
                     problems.append({"tap_expected": expf, "observed": line})
                     break
